@@ -11,6 +11,7 @@ case "$1" in
   C09) exec python3-vt checks/c09.py ;;
   C10) exec python3-vt checks/c10.py ;;
   C15) exec python3-vt checks/c15.py ;;
+  C17) exec python3-vt checks/c17.py ;;
   C12) exec python3-vt checks/c12.py ;;
   C13) exec python3-vt checks/c13.py ;;
   C14) exec python3-vt checks/c14.py ;;
